@@ -402,3 +402,9 @@ def request_returns_only_the_expected_response(c, ack, t, have_ack, have_resp):
         assert have_ack and have_resp and r is t
         assert isinstance(ack, tpci.TAck) and ack.sequence_number == nxt
         assert isinstance(r.payload, apci.DeviceDescriptorResponse)
+
+
+ASSUMPTIONS = [
+    "asyncio is trusted behind the contract stubs: a cancelled task/future does not continue, asyncio.timeout cancels what it guards, locks are mutually exclusive, queues are FIFO, tasks switch only at awaits; interleavings inside one await are represented by 'the awaited object completes with any admissible value, times out, or the connection closes'",
+    "link loss/duplication is represented by arbitrary per-call inputs, not by a device model",
+]
